@@ -20,8 +20,8 @@ def baseline(prop):
             p=subprocess.run([f'{ROOT}/bin/sgcheck','-repo',REPO,'-property',prop,'-tier','quick','-no-evidence','-verif',ROOT],capture_output=True,text=True,env=env)
             _base[prop]=set(re.findall(r'rule (\S+) violated at \S+ (.*)',p.stdout))
         return _base[prop]
-def run_mutant(path):
-    prop=os.path.basename(os.path.dirname(path))
+def run_mutant(path,prop=None):
+    prop=prop or os.path.basename(os.path.dirname(path))
     txt=open(path).read()
     m=re.match(r'# expect: (.*)\n',txt)
     expect=m.group(1).split() if m else []
@@ -79,4 +79,4 @@ def main():
         json.dump({"mutants":len(res),"detected":sum(1 for r in res if r["status"]=="caught"),"stale_patch":sum(1 for r in res if r["status"]=="stale"),
                    "not_detected":[r["mutant"] for r in res if r["status"] in("MISSED","does-not-compile")],"results":res},open(summary,'w'),indent=1)
     sys.exit(1 if bad else 0)
-main()
+if __name__=='__main__': main()
